@@ -324,6 +324,33 @@ class TTuple(T):
         return [f for t, e in zip(self.ts, v) for f in t.wf(e)]
 
 
+class TFSet(T):
+    """frozenset with exactly n members of type t (members may coincide): n components; equality is set equality"""
+
+    def __init__(self, t, n):
+        self.t, self.n = t, n
+
+    def __repr__(self):
+        return f"TFSet[{self.t},{self.n}]"
+
+    def sorts(self):
+        return [s for _ in range(self.n) for s in self.t.sorts()]
+
+    def flat(self, v):
+        if len(v) != self.n:
+            raise Unsupported(f"frozenset of {len(v)} members where {self.n} are expected")
+        return [x for e in v for x in self.t.flat(e)]
+
+    def unflat(self, terms):
+        from .prelude import FSet
+        k = len(self.t.sorts())
+        return FSet(tuple(self.t.unflat(terms[i * k:(i + 1) * k]) for i in range(self.n)))
+
+    def eq(self, a, b):
+        from .ops import values_equal, B
+        return B(values_equal(a, b))
+
+
 class TVec(T):
     """numpy float vector / matrix of concrete shape"""
 
